@@ -743,7 +743,7 @@ fn key_free_findings(env: &Env, n0: usize) {
 fn illegal_release_findings(env: &Env, n0: usize) {
 	let notices = env.exec.notices();
 	for n in &notices[n0.min(notices.len())..] {
-		if let Notice::IllegalRelease { tid, lid, op, kind, during_fault, .. } = n {
+		if let Notice::IllegalRelease { tid, lid, op, kind, during_fault, others, .. } = n {
 			if *during_fault {
 				// evaluated by the C12 fault oracle with the call site in the signature
 				continue;
@@ -755,7 +755,9 @@ fn illegal_release_findings(env: &Env, n0: usize) {
 				format!("illegal-release|{kind:?}"),
 				format!("thread {tid} issued {} on L{lid} which it does not hold that way ({kind:?})", op.short()),
 			);
-			if *kind == crate::exec::IllegalKind::Foreign {
+			// a release in the wrong mode resets a real reader-writer lock as a
+			// whole: the other readers lose their holds as well
+			if *kind == crate::exec::IllegalKind::Foreign || (*kind == crate::exec::IllegalKind::WrongMode && *others) {
 				// the lock is held by somebody else at this moment: with a real raw
 				// lock that holder's section stops being exclusive
 				env.finding(
@@ -853,6 +855,27 @@ pub fn run_step(env: &Env, ctx: &mut ThreadCtx, idx: usize, step: &Step) -> Step
 		}
 		Step::ParkKey { cont, route } => {
 			executed = step_park_key(env, ctx, *cont, *route);
+		}
+		Step::ProbeKeyMany { n } => {
+			// a refused request must stay refused however often it is repeated
+			let alive = ctx.key_alive();
+			if alive {
+				for i in 0..*n {
+					if let Some(k) = ThreadKey::get() {
+						env.finding(
+							"C06",
+							tid,
+							"second-key|repeated-get".to_string(),
+							format!("request number {} for the key was granted although the thread's key is alive (the earlier ones were refused)", i + 1),
+						);
+						drop(k);
+						break;
+					}
+				}
+				env.label("probe_key_many");
+			} else {
+				executed = false;
+			}
 		}
 		Step::Acquire { target, read, try_ } => {
 			executed = step_acquire(env, ctx, *target, *read, *try_);
